@@ -271,6 +271,13 @@ class VGen:
         self.node, self.env = node, env_snapshot
 
 
+class VConstDict:
+    """dict literal with constant (string/int) keys, e.g. {"0": "1", "1": "0"}"""
+
+    def __init__(self, items):
+        self.items = items   # list of (key value, value)
+
+
 class VModel:
     """Base class of plug-in model objects (pysam records, files, ...) defined in contract files."""
 
